@@ -1,11 +1,15 @@
 import HypnoModel.Drv.C17
 import HypnoModel.Drv.C13
+import HypnoModel.Drv.C08
 /- line-protocol driver:  lake env lean --run Driver.lean < ops   (one op per line, one answer per line) -/
 def step (line : String) : String :=
   match Drv.words line with
   | "c17w" :: a => Drv.C17.opWrite a
   | "c17r" :: a => Drv.C17.opRead a
   | "c13" :: a => Drv.C13.op a
+  | "c08" :: a => Drv.C08.op a
+  | "c08t" :: a => Drv.C08.opT a
+  | "c08u" :: a => Drv.C08.opU a
   | _ => "bad-op"
 
 partial def loop (h : IO.FS.Stream) (out : IO.FS.Stream) : IO Unit := do
